@@ -30,6 +30,8 @@ func VerifHSClientOfferable(id uint16) (legacy, tls12Only, tls13 bool) {
 // VerifHSSessionInfo is the abstract content of a ClientSessionState.
 type VerifHSSessionInfo struct {
 	Ticket      []byte
+	Secret      []byte // master secret (TLS <= 1.2) / resumption master secret (TLS 1.3)
+	Nonce       []byte // TLS 1.3 ticket nonce
 	Vers        uint16
 	CipherSuite uint16
 	Lifetime    uint32
@@ -41,6 +43,8 @@ type VerifHSSessionInfo struct {
 func VerifHSSessionGet(s *ClientSessionState) VerifHSSessionInfo {
 	return VerifHSSessionInfo{
 		Ticket:      append([]byte(nil), s.sessionTicket...),
+		Secret:      append([]byte(nil), s.masterSecret...),
+		Nonce:       append([]byte(nil), s.nonce...),
 		Vers:        s.vers,
 		CipherSuite: s.cipherSuite,
 		Lifetime:    s.lifetimeHint,
